@@ -22,7 +22,7 @@ func init() {
 	core.Register(&core.Simple{
 		Id: "C11", Lvl: "exploration", Quick: 220, Thorough: 6000, PerBatch: 55, Width: 55, Timeout: 2400,
 		RuleText: "each case is a history of 20-40 file-management requests through the real connection loop on a generated tree (names over ASCII and Mac-Roman high bytes incl. names that merely contain '.incomplete', spaces, 1..60 bytes; not starting with '.' or '@'): rename, move, delete, new folder (also onto an existing name), alias, set-comment on files and folders, upload started and cut (partial file), and move/rename attempts on a partial by its listed name; destination names never collide. After every step a reference namespace model is compared with: the file list of every folder (exactly the model's entries, partials under their final name, folder item counts, sizes), get-info and the download reply of every complete file (size and type agree with the list and with the bytes on disk; comment), and the directory contents (side files .info_/.rsrc_/.incomplete travel or vanish with their file, no orphans). distinct = multiset of operation kinds; non-trivial = history has a rename/move/delete of a file that owns a side file or a partial",
-		Case: runCase,
+		Case:     runCase,
 	})
 }
 
@@ -38,14 +38,14 @@ type ent struct {
 }
 
 type world struct {
-	c     *core.Case
-	srv   *fixture.Server
-	cl    *refclient.Client
-	root  *ent
-	log   []string
-	kinds map[string]int
-	step  int
-	rich  bool
+	c        *core.Case
+	srv      *fixture.Server
+	cl       *refclient.Client
+	root     *ent
+	log      []string
+	kinds    map[string]int
+	step     int
+	rich     bool
 	nPartial int
 }
 
